@@ -11,8 +11,8 @@ use petgraph::algo::dominators::simple_fast;
 use petgraph::algo::{
     all_simple_paths, astar, bellman_ford, connected_components, dijkstra, find_negative_cycle, floyd_warshall,
     ford_fulkerson, greedy_matching, has_path_connecting, is_cyclic_directed, is_cyclic_undirected, is_isomorphic,
-    k_shortest_path, kosaraju_scc, maximal_cliques, maximum_matching, min_spanning_tree, page_rank, spfa, tarjan_scc,
-    toposort,
+    k_shortest_path, kosaraju_scc, maximal_cliques, maximum_matching, min_spanning_tree, min_spanning_tree_prim, page_rank,
+    spfa, tarjan_scc, toposort, DfsSpace,
 };
 use petgraph::data::Element;
 use petgraph::graph::{Graph, NodeIndex};
@@ -245,6 +245,17 @@ where
             }
             Err(_) => "Cycle".to_string(),
         });
+        ans.put("toposort-reused-workspace", enc, || {
+            // one DfsSpace across toposort / has_path_connecting / toposort: same verdict as a fresh call
+            let fresh = toposort(g, None).is_ok();
+            let mut space = DfsSpace::new(g);
+            let first = toposort(g, Some(&mut space)).is_ok();
+            let reach = has_path_connecting(g, v.id(s), v.id(t), Some(&mut space));
+            let second = toposort(g, Some(&mut space)).is_ok();
+            assert!(first == fresh && second == fresh, "toposort with a reused DfsSpace: fresh {fresh}, first {first}, after has_path_connecting {second}");
+            assert!(reach == has_path_connecting(g, v.id(s), v.id(t), None), "has_path_connecting with a reused DfsSpace");
+            format!("{fresh} {reach}")
+        });
         ans.put("Topo", enc, || {
             let mut x: Vec<usize> = Topo::new(g).iter(g).take(v.a.n + 2).map(l).collect();
             x.sort();
@@ -272,12 +283,18 @@ where
     ans.put("min_spanning_tree-weight", enc, || {
         let mut w = 0i64;
         let mut k = 0;
+        let mut nodes = 0usize;
         for el in min_spanning_tree(g).take(3 * v.a.n + v.a.m() + 4) {
-            if let Element::Edge { weight, .. } = el {
-                w += weight as i64;
-                k += 1;
+            match el {
+                Element::Node { .. } => nodes += 1,
+                Element::Edge { source, target, weight } => {
+                    assert!(source < nodes && target < nodes, "min_spanning_tree: edge element ({source},{target}) names a position beyond the {nodes} node elements");
+                    w += weight as i64;
+                    k += 1;
+                }
             }
         }
+        assert!(nodes == v.a.n, "min_spanning_tree: {nodes} node elements for {} nodes", v.a.n);
         format!("{k} edges, weight {w}")
     });
 }
@@ -305,14 +322,41 @@ where
 fn g_artic<G>(g: G, v: &View<G::NodeId>, enc: &str, ans: &mut Answers)
 where
     G: IntoNodeReferences + IntoEdges + NodeIndexable + GraphProp + Copy,
+    G: petgraph::visit::Data<EdgeWeight = i32>,
     G::NodeId: Nid,
     G::NodeWeight: Clone,
-    G::EdgeWeight: Clone + PartialOrd,
 {
     if v.a.directed {
         return;
     }
     let back = ans.back.clone();
+    // Prim spans the first node's component; which node is first depends on the encoding, so the
+    // weight is only comparable on connected graphs - the element stream is validated on all
+    let connected = v.a.wcc_ids().1 <= 1;
+    ans.put("min_spanning_tree_prim", enc, || {
+        use petgraph::visit::NodeRef;
+        let ids: Vec<G::NodeId> = g.node_references().map(|r| r.id()).collect();
+        let (mut w, mut k, mut nodes) = (0i64, 0usize, 0usize);
+        for el in min_spanning_tree_prim(g).take(3 * v.a.n + v.a.m() + 4) {
+            match el {
+                Element::Node { .. } => nodes += 1,
+                Element::Edge { source, target, weight } => {
+                    assert!(source < ids.len() && target < ids.len(), "min_spanning_tree_prim: edge element ({source},{target}) names a position beyond the {} nodes", ids.len());
+                    let (x, y) = (ids[source], ids[target]);
+                    let real = g.edges(x).any(|e| ((e.source() == x && e.target() == y) || (e.source() == y && e.target() == x)) && *e.weight() == weight);
+                    assert!(real, "min_spanning_tree_prim: element {}-{} with weight {weight} is not an edge of the graph", lab(v, &back, x), lab(v, &back, y));
+                    w += weight as i64;
+                    k += 1;
+                }
+            }
+        }
+        assert!(nodes == v.a.n, "min_spanning_tree_prim: {nodes} node elements for {} nodes", v.a.n);
+        if connected {
+            format!("{k} edges, weight {w}")
+        } else {
+            "valid (disconnected graph: the spanned component depends on the node order)".to_string()
+        }
+    });
     ans.put("articulation_points", enc, || {
         let mut x: Vec<usize> = articulation_points(g).into_iter().map(|x| lab(v, &back, x)).collect();
         x.sort();
@@ -452,6 +496,21 @@ pub fn run(c: &Case) -> Outcome {
             ans.back = ident.clone();
             common!(&g2, &v2, "StableGraph holes");
             g_directed(&g2, &v2, "StableGraph holes", &mut ans, s, t);
+            if a0.directed {
+                // a workspace sized for (or default-constructed before) the compact Graph, then used on the
+                // encoding with vacancies (larger node_bound): every user has to size the maps itself
+                for (name, default) in [("toposort-shared-workspace(new)", false), ("toposort-shared-workspace(default)", true)] {
+                    ans.put(name, "Graph<u32> then StableGraph holes", || {
+                        let mut space = if default { DfsSpace::default() } else { DfsSpace::new(&g0) };
+                        let r0 = toposort(&g0, Some(&mut space)).is_ok();
+                        let r2 = toposort(&g2, Some(&mut space)).is_ok();
+                        let h2 = has_path_connecting(&g2, v2.id(s), v2.id(t), Some(&mut space));
+                        let h0 = has_path_connecting(&g0, v0.id(s), v0.id(t), Some(&mut space));
+                        assert!(r0 == r2 && h0 == h2, "shared DfsSpace: toposort {r0} / {r2}, has_path_connecting {h0} / {h2}");
+                        format!("{r0} {h0}")
+                    });
+                }
+            }
             let (g2b, m2b) = to_stable_holes::<i32, $ty, u16>(&b, salt + 5, |w| w);
             let v2b = View::full(&b, m2b);
             ans.back = inv.clone();
